@@ -13,7 +13,8 @@ exist at the pinned commit; a maintainer may rename one of them or extract a new
 
 Nothing is executed; the transformation is on the AST only and keeps the source positions of the inlined statements."""
 import ast
-import copy
+
+from .model import astcopy
 
 # private API of the pinned tree: (class or None, name) -> number of positional parameters (with the receiver)
 KNOWN_PRIVATE = {
@@ -94,7 +95,7 @@ class _Subst(ast.NodeTransformer):
 
     def visit_Name(self, n):
         if isinstance(n.ctx, ast.Load) and n.id in self.env:
-            return copy.deepcopy(self.env[n.id])
+            return astcopy(self.env[n.id])
         return n
 
     def visit_Lambda(self, n):
@@ -105,7 +106,7 @@ class _Subst(ast.NodeTransformer):
 
 
 def _subst(node, env):
-    return _Subst(env).visit(copy.deepcopy(node))
+    return _Subst(env).visit(astcopy(node))
 
 
 class _Rename(ast.NodeTransformer):
@@ -152,8 +153,8 @@ def _convert_returns(stmts, mk):
         if isinstance(st, ast.Return):
             return stmts[:i] + mk(st.value)
         if isinstance(st, ast.If):
-            b = _convert_returns(st.body + copy.deepcopy(rest), mk)
-            o = _convert_returns(st.orelse + copy.deepcopy(rest), mk)
+            b = _convert_returns(st.body + astcopy(rest), mk)
+            o = _convert_returns(st.orelse + astcopy(rest), mk)
             if b is None or o is None:
                 return None
             new = ast.copy_location(ast.If(test=st.test, body=b or [ast.copy_location(ast.Pass(), st)], orelse=o), st)
@@ -420,7 +421,7 @@ class Inliner:
                 if env is None:
                     out.append(st)
                     continue
-                body = copy.deepcopy(h.body)
+                body = astcopy(h.body)
                 pre = []
                 sto = _stores(body)
                 ren = fresh_env(h, env)
@@ -438,7 +439,7 @@ class Inliner:
                             k += 1
                             newp = '%s_%d' % (p, k)
                         taken.add(newp)
-                        pre.append(ast.copy_location(ast.Assign(targets=[ast.Name(id=newp, ctx=ast.Store())], value=copy.deepcopy(env[p])), st))
+                        pre.append(ast.copy_location(ast.Assign(targets=[ast.Name(id=newp, ctx=ast.Store())], value=astcopy(env[p])), st))
                         if newp != p:
                             ren[p] = newp
                         del env[p]
@@ -451,7 +452,7 @@ class Inliner:
                         new = new + [ast.copy_location(ast.Return(value=ast.Constant(value=None)), st)]
                 elif kind == 'assign':
                     tgt = st.targets[0]
-                    new = _convert_returns(body, lambda v: [ast.copy_location(ast.Assign(targets=[copy.deepcopy(tgt)],
+                    new = _convert_returns(body, lambda v: [ast.copy_location(ast.Assign(targets=[astcopy(tgt)],
                                                                                         value=v if v is not None else ast.Constant(value=None)), st)])
                 else:
                     new = _convert_returns(body, lambda v: ([ast.copy_location(ast.Expr(value=v), st)] if isinstance(v, ast.Call) else []))
